@@ -619,17 +619,17 @@ theorem unmarshalTupleScan_spec (p : Nat) :
 
 /-- what unmarshalTuple does with one decoded element `v` (a value of goType(elem)) for a struct field / slice or
     array element of type `g`: a pointer field gets the pointer for a present element (EMPTY included) and nil for
-    null; interface{} and goType fields get the value; any other field type makes reflect.Value.Set panic -/
+    null; interface{} and goType fields get the value; any other field type is an error (setTupleElem) -/
 def setSlot (t : CqlTy) (g : GoTy) (item : Option Bytes) (v : GoVal) : URes :=
   match g with
-  | .ptr g' => if g' == goTypeOf t then (if item.isSome then .ok (.ptr v) else .ok .nilptr) else .crash
+  | .ptr g' => if g' == goTypeOf t then (if item.isSome then .ok (.ptr v) else .ok .nilptr) else .err
   | .iface => .ok v
   | g => if g == goTypeOf t then .ok v else
       (match g, v with
        | .arr16, .uuid b => .ok (.arr16 b)
        | .bytes true, .bytes false isNil b => .ok (.bytes true isNil b)
        | .ip, .bytes false _ b => .ok (.ip b)
-       | _, _ => .crash)
+       | _, _ => .err)
 
 /-- one field of `unmarshalTupleSet`: decode into goType(elem), then the slot -/
 def setField (p : Nat) (t : CqlTy) (g : GoTy) (item : Option Bytes) : URes :=
@@ -640,7 +640,7 @@ def setField (p : Nat) (t : CqlTy) (g : GoTy) (item : Option Bytes) : URes :=
 theorem unmarshalTupleSet_cons (p : Nat) (t : CqlTy) (ts : List CqlTy) (g : GoTy) (gs : List GoTy) (data : Bytes) :
     unmarshalTupleSet p (t :: ts) (g :: gs) data =
       (match (if !(shorter data 4) then readBytesM data else some (none, data)) with
-       | none => .crash
+       | none => .err
        | some (item, r) => (match setField p t g item with
           | .ok sv => (match unmarshalTupleSet p ts gs r with
               | .ok vs r' => .ok (sv :: vs) r'
